@@ -46,6 +46,9 @@ CHECKS = {
          "TLA+ monitor on TLC-validated implementation traces + TLC model checking of Spec B"),
  "C13": ("model_checking", "Retry monitor (attempts per visit) in Props; C13_bound/cond/silent/delay; Spec B retry path model-checked and replayed.", "6 C13",
          "TLA+ monitor on TLC-validated implementation traces + TLC model checking of Spec B"),
+ "C17": ("model_checking", "Rerun clauses (accept, resuming, exact offers, no repeat, not stuck) on every call of histories that place a default or "
+         "single-task rerun at every completed resting point; reruns whose re-executed actions succeed are related to the clean scenario's terminal "
+         "observations (C17_converge, spec/Groups.tla).", "6 C17", "TLA+ monitor + relational check over rerun histories of the real conductor"),
  "C18": ("model_checking", "Append-only action properties over consecutive recorded states.", "6 C18",
          "TLA+ action properties on TLC-validated implementation traces"),
 }
